@@ -21,6 +21,8 @@ ENTRY = dict(
                 "CORRESPONDENCE ONLY (harness/c01.py object-freshness checks on twin streams, twin sessions, repeated identical frames, deliveries after the caller modified an earlier object). The model's `Fields` are values without identity, so no theorem speaks about WHICH object is handed out; a change that re-delivers a cached object with the right field values (seeded C01-m14) can only be seen by the harness.",
             "calls abandoned at the LAST await of read() (Frame.create: class lookup + executor hop, frame consumed and every gate passed), frames of unknown kinds repeated, identical frames repeated after the caller modified the delivered object: later deliveries are justified by the bytes THAT call consumed":
                 "theorem (Model/ReaderSession.sessionX; C01.sessionX_calls_are_reads_of_the_fed_bytes, sessionX_delivered_bytes (Props/C01SessionBytes: the consumed bytes are located in the bytes fed so far, exactly behind what the earlier events took); corollaries sessionX_calls_are_reads, sessionX_delivered_only_if_well_formed) + correspondence (one FrameReader under a held executor; abandoned by READER_TIMEOUT or cancellation; C01.spec on every delivery; object freshness)",
+            "a reader / a connection in a process with HISTORY -- earlier read() calls abandoned (READER_TIMEOUT through the real @timeout, a caller's wait_for, cancellation; a connection ended by reader time-out / cancel_tasks / shutdown() while its producer was reading) at EVERY suspension point of read(), the Frame.create executor hop with its job still pending included (the awaiting task is cancelled and asyncio cancels the awaited run_in_executor future with it; harness/vloop.py's executor is checked against the real thread-pool executor in this respect on every run): what later calls hand out is justified by the bytes THOSE calls consumed":
+                "theorem (C14.history_leaves_no_residue, C14.next_call_after_history_is_read in Props/C14History.lean, registered under C14; C01.sessionX_delivered_only_if_well_formed) + correspondence (harness/history.py: reader histories in fresh python processes vs sessionX; a call of a tree whose Frame.create does not suspend completes where the model's caller abandons it: accepted iff C01.spec holds of the bytes it consumed)",
             "delivered => well-formed, all streams": "theorem",
             "non-delivery outcomes are ignored / protocol error / connection lost": "theorem (by construction of the model) + correspondence (implementation has no other behaviour)",
             "every fragmentation into chunks": "correspondence (3 chunkings per stream; StreamReader trusted)",
